@@ -177,6 +177,7 @@ EndOK(ev, specOK, metaOK) ==
   /\ (Has(ev, "encok") => ev.encok = ev.ok)
   /\ (Has(ev, "nildst") => ev.nildst = ev.ok)
   /\ (Has(ev, "logdst") => ev.logdst = ev.ok)          \* a DestinationLogger with no destination behind it
+  /\ (Has(ev, "vecdst") => ev.vecdst = ev.ok)          \* a Renderer drawing through a real raster/vec.Rasterizer
 
 TVEnd ==
   /\ Trace[l].ev = "end" /\ ~skip
